@@ -11,6 +11,7 @@ import fcntl
 import hashlib
 import json
 import os
+import random
 import re
 import shutil
 import subprocess
@@ -241,6 +242,10 @@ class Ctx:
     def run_driver_sharded(self, name, request, cases, shards=None, timeout=3600, key="cases", env=None):
         """Split `cases` over parallel driver processes; merge the responses."""
         shards = shards or min(NCPU, max(1, len(cases)))
+        # seeded shuffle: a driver process then meets the cases in mixed order (larger parameters before smaller ones as well), so that
+        # state kept between cases by the code under test - a cache keyed too coarsely, say - has a chance to show
+        cases = list(cases)
+        random.Random(self.seed * 7 + len(cases)).shuffle(cases)
         parts = [cases[i::shards] for i in range(shards)]
         parts = [p for p in parts if p]
         merged = {"evaluations": 0, "distinct": 0, "trivial": 0, "violations": [], "samples": [], "results": [], "info": {}}
